@@ -5,7 +5,7 @@ From Coq Require Import NArith List Bool.
 Import ListNotations.
 From Coq Require Import ZArith.
 From CXV Require Import Gen.TokTy Gen.ParserTables Parse.Balanced Gen.Blocks Parse.BlocksSM.
-From CXV Require Import Base.Regex Base.Cost Gen.LexRules Lex.PlyLoop Gen.StreamTables Stream.TokBuf Fmt.TokFmt PP.Filters Misc.ReprModel Gen.Schema Parse.Fold Parse.Declarator Parse.DeclSpec Parse.EnumList Parse.BaseClause.
+From CXV Require Import Base.Regex Base.Cost Gen.LexRules Lex.PlyLoop Gen.StreamTables Stream.TokBuf Fmt.TokFmt PP.Filters Misc.ReprModel Gen.Schema Parse.Fold Parse.Declarator Parse.DeclSpec Parse.EnumList Parse.BaseClause Parse.NsHeader.
 Open Scope N_scope.
 
 Definition nlen {A} (l : list A) : N := N.of_nat (length l).
@@ -460,8 +460,22 @@ Definition run_alias (args : list N) : list N :=
   | DErr e => [1; e]
   end.
 
+(* 87: a namespace header (after `namespace`): inline flag, then tokens.
+   Output: 0, rest length, kind (0 definition / 1 alias), alias, count, names *)
+Definition run_ns_header (args : list N) : list N :=
+  match args with
+  | i :: r =>
+      match ns_header (Nb i) (dec_tks r) with
+      | DOk (NsDef names, rest) => 0 :: nlen rest :: 0 :: 0 :: nlen names :: names
+      | DOk (NsAlias a names, rest) => 0 :: nlen rest :: 1 :: a :: nlen names :: names
+      | DErr e => [1; e]
+      end
+  | [] => [1; 0]
+  end.
+
 Definition run_case (cmd : N) (args : list N) : list N :=
   match cmd, args with
+  | 87, _ => run_ns_header args
   | 86, _ => run_alias args
   | 85, _ => run_bases args
   | 84, _ => run_enum_list args
